@@ -100,6 +100,8 @@ def props_of(finding, trace, sc):
         return {"C19"}
     if base == "foreign":
         return {"C19", "C13", "C08"}
+    if base == "orphan":
+        return {"C01", "C08", "C13", "C14"}
     if base == "read":
         return {"C20"}
     if base == "work":
